@@ -192,6 +192,15 @@ def check(case, ctx):
                 return
             if snapshot(c) != snap:
                 ctx.violation("strip_modified_argument", f"{what}: argument changed: {snapshot_diff(snap, snapshot(c))}")
+            # editing the result must not reach the argument (also when there was nothing to strip)
+            probe = cg.tx.strip_blackboxes(c, ign)
+            probe.graph.add_node("zz_edit", type="buf", output=True)
+            for n_ in list(probe.graph.nodes)[:1]:
+                probe.graph.nodes[n_]["type"] = "zz_edited"
+            ctx.count("strip_result_edit_probe")
+            if snapshot(c) != snap:
+                ctx.violation("strip_result_aliases_argument", f"{what}: editing the returned circuit changed the argument: {snapshot_diff(snap, snapshot(c))}")
+                return
             after_net = Net.of(r)
             after = K.State.of_net(after_net)
             ctx.count("cmp:structural")
@@ -214,6 +223,21 @@ def check(case, ctx):
         kid, knet, kst = kids[ci], knets[ci], kstates[ci]
         ksnap = snapshot(kid)
         if op["op"] == "add_subcircuit":
+            pure_outs = sorted(knet.outputs - knet.inputs())
+            holes_now = sorted(n for n, t in before_net.types.items() if t == "buf" and not before_net.preds[n] and n.startswith("h"))
+            if case.get("probe_rejected") and len(pure_outs) >= 2 and holes_now:
+                # connections that are each legal alone but illegal together (two drivers for one buffer):
+                # the call must be refused and must leave the parent as it was
+                bad_conns = {pure_outs[0]: holes_now[0], pure_outs[1]: holes_now[0]}
+                okp, rp = ctx.call(c.add_subcircuit, kid, name + "_probe", bad_conns)
+                ctx.count("conflicting_connections_probe")
+                pn = Net.of(c)
+                if okp or not isinstance(rp, ValueError):
+                    ctx.violation("conflicting_connections_accepted", f"{what}: two child outputs mapped onto {holes_now[0]!r} were accepted ({rp!r})")
+                    return
+                if pn.types != before_net.types or pn.edges() != before_net.edges() or pn.bbs != before_net.bbs:
+                    ctx.violation("rejected_call_changed_parent", f"{what}: the refused add_subcircuit left nodes/edges behind: {sorted(set(pn.types) - set(before_net.types))[:4]}")
+                    return
             conns = dict(op["connections"])
             exp = K.exp_add_subcircuit(before, kst, name, conns)
             ok, r = ctx.call(c.add_subcircuit, kid, name, conns)
@@ -257,6 +281,24 @@ def check(case, ctx):
             spliced = []
             rename = None
         else:
+            if case.get("probe_rejected"):
+                # a child with the blackbox's pin names but another input/output split must be refused
+                bbname_, ins_, outs_ = before.bbs[name]
+                if ins_ and outs_:
+                    bad = cg.Circuit(name="swapped")
+                    for pn_ in sorted(outs_):
+                        bad.add(pn_, "input")
+                    for pn_ in sorted(ins_):
+                        bad.add(pn_, "buf", fanin=sorted(outs_)[0], output=True)
+                    okp, rp = ctx.call(c.fill_blackbox, name, bad)
+                    ctx.count("swapped_direction_fill_probe")
+                    pn = Net.of(c)
+                    if okp or not isinstance(rp, ValueError):
+                        ctx.violation("mismatched_fill_accepted", f"{what}: a fill circuit with inputs {sorted(outs_)} / outputs {sorted(ins_)} was accepted for a blackbox with inputs {sorted(ins_)} / outputs {sorted(outs_)}")
+                        return
+                    if pn.types != before_net.types or pn.edges() != before_net.edges() or pn.bbs != before_net.bbs:
+                        ctx.violation("rejected_call_changed_parent", f"{what}: the refused fill changed the parent")
+                        return
             exp = K.exp_fill_blackbox(before, name, kst)
             ok, r = ctx.call(c.fill_blackbox, name, kid)
             spliced = [(knet, name)]
@@ -301,5 +343,5 @@ def check(case, ctx):
 
 
 def gates(counters, table, tier):
-    need = ["rejected_call_probe", "strip_str_ignore_with_substring_pins", "child_with_feedthrough_port", "instance_name_is_prefix_of_another", "op:add_subcircuit", "op:add_blackbox", "op:fill_blackbox", "op:strip_blackboxes", "partial_connections", "child_with_nested_blackbox", "fill_after_other_calls", "fill_immediately", "same_child_instantiated_twice", "strip_with_ignore", "strip_with_blackboxes", "functional_checks"]
+    need = ["conflicting_connections_probe", "swapped_direction_fill_probe", "strip_result_edit_probe", "rejected_call_probe", "strip_str_ignore_with_substring_pins", "child_with_feedthrough_port", "instance_name_is_prefix_of_another", "op:add_subcircuit", "op:add_blackbox", "op:fill_blackbox", "op:strip_blackboxes", "partial_connections", "child_with_nested_blackbox", "fill_after_other_calls", "fill_immediately", "same_child_instantiated_twice", "strip_with_ignore", "strip_with_blackboxes", "functional_checks"]
     return [f"{k} seen {counters.get(k, 0)} times" for k in need if counters.get(k, 0) < 5]
